@@ -148,6 +148,45 @@ CHECKS.update({
         design_ref="6/C11"),
 })
 
+CHECKS.update({
+    "C02": dict(
+        text="Theorems: the implicit step is a max-norm contraction in its data for every non-negative coefficient vector (unconditional "
+             "stability), hence the distance to ANY reference field grows by at most its truncation residual per step; flux stencil exact "
+             "for quadratics; translated matrix and recovery scale factors equal the model's. The convergence claim itself (first-order "
+             "small, shrinking under refinement) is validated numerically against the closed-form Fourier series and an independent BDF "
+             "method-of-lines reference along (nx, nt) ladders -- reported as validated_only.",
+        technique="Coq proof (stability / error propagation via the discrete maximum principle) + numerical refinement ladders against independent references",
+        design_ref="6/C02"),
+    "C03": dict(
+        text="Theorems: both recovery modes start at zero; exact discrete mass balance of a constant-coefficient step (telescoping), hence a "
+             "non-increasing stored total; in-place recovery never exceeds 1 - rho(lowest value)/rho(m_i) for a non-decreasing density "
+             "(combined with C01's bounds). Gap between the two modes (first-order, shrinking), monotone recovery and the ideal-gas plateau are "
+             "validated numerically on ladders for consistent synthetic tables exactly and shipped tables widened by their measured inconsistency.",
+        technique="Coq proof (telescoping sum, monotone bounds) + numerical refinement ladders",
+        design_ref="6/C03"),
+    "C05": dict(
+        text="Theorems on forecast.py as regenerated: forecast = M * rf(t/tau), linear in M, invariant under joint rescaling of t and tau; Bounds "
+             "rejected iff lower >= upper (and for lengths != 2); fit_bounds shape; regularised guesses lie in the box, unchanged when inside, "
+             "idempotent; for fixed tau the bounded least-squares optimum is the clipped ratio sum(r y)/sum(r r). curve_fit's behaviour "
+             "(bounds honoured, round-trip recovery of M and tau) is validated numerically over many decades.",
+        technique="Coq proof (field/lra on py2coq-translated model) + numerical round trips",
+        design_ref="6/C05"),
+    "C18": dict(
+        text="The fitting objective is defined in Coq from the same FlowProperties/simulate/recovery model as C01-C04 (80 nodes, days/tau, "
+             "p_initial for both pressures) and proved to vanish at generating parameters; row filter and cumulative production are list "
+             "functions with their characterisation theorems. The float instance of the objective is run against _obj_function; the fit is "
+             "exercised for limits, filtering, window=1 and iteration budgets. lmfit's bounded parameters are a trusted, validated contract.",
+        technique="Coq proof over hand model + float-instance correspondence with _obj_function",
+        design_ref="6/C18"),
+    "C20": dict(
+        text="The two axis transforms are regenerated from plotting.py and proved to be sqrt / square and exact mutual inverses on non-negative "
+             "lists; profile selection is proved to pick exactly indices 0,k,2k,.. in order, rescaling to map the fracture value to 0 and the "
+             "initial value to 1, the rate stencil to be exact for quadratics. The helpers' Line2D data are read back under Agg and compared "
+             "with the simulated data and with the float instance of the Coq model.",
+        technique="Coq proof over translated transforms and hand model + Line2D data correspondence",
+        design_ref="6/C20"),
+})
+
 NOT_APPLICABLE = {}
 
 
